@@ -32,6 +32,7 @@ func c16(c *Ctx) {
 	c16R6(c, "R6")
 	sDispatch(c, "R7/S-DISPATCH")
 	sLockDiscipline(c, "R8/S-LOCK", "NetworkTransport")
+	sHeartbeatFastPath(c, "R8/S-FASTPATH")
 }
 
 // c16R6: a client connection is one consistent bundle (encoder writes into the
